@@ -81,6 +81,18 @@ def run_case(utils, pd, case, base, sp):
   if sorted(got) != expected:
     return 'CoveredDays', 'input %r: expected %r got %r' % (strings, [str(x) for x in expected],
                                                           [str(x) for x in sorted(got)])
+  if windows:
+    # the windows handed back are the caller's: it widens them in place, then asks again for the same strings
+    for w in windows:
+      w.last_day = w.last_day + pd.Timedelta(days=3)
+      w.first_day = w.first_day - pd.Timedelta(days=2)
+    try:
+      again = sorted(pd.Timestamp(t).date() for t in utils.expand_time_windows(utils.find_days_to_exclude(list(strings))))
+    except Exception as e:  # pylint: disable=broad-except
+      return 'SecondCallSameAnswer', '%s on the second call for %r: %s' % (type(e).__name__, strings, e)
+    if again != expected:
+      return 'SecondCallSameAnswer', 'input %r asked again after the caller edited the windows it got: expected %r got %r' % (
+          strings, [str(x) for x in expected], [str(x) for x in again])
   return None
 
 
